@@ -1404,6 +1404,20 @@ func c01CurrentSource(w *World, r *Report, ef *Effects) {
 					n++
 					to := IPos{pred, len(pred.Instrs) - 1}
 					ex, _ := g.PathExists(entryPos(fn), to, Avoid{}.withEdges(guards...))
+					// the edge by which the value flows in may itself be the guard edge
+					for _, ge := range guards {
+						if ge.From == pred && ge.To() == phi.Block() && ge.Via == nil {
+							only := true
+							for si, sb := range pred.Succs {
+								if sb == phi.Block() && si != ge.Succ {
+									only = false
+								}
+							}
+							if only {
+								ex = false
+							}
+						}
+					}
 					r.Check(!ex && len(guards) > 0, "C01/CURRENT-SOURCE", fmt.Sprintf("%s/fallback-to-last#%d", FuncName(fn), n), w.InstrPos(pred.Instrs[len(pred.Instrs)-1]),
 						"Storage.Last's result is taken as the current revision only where its status is deployed or Storage.Deployed returned ErrNoDeployedReleases",
 						"Storage.Last's result can become the current revision although another revision may be deployed (any lookup error falls back to it)")
